@@ -220,6 +220,7 @@ struct Checks {
     bool canon = false;      // pairwise == <=> same table after every step
     bool operands = true;    // operands unchanged after operations
     bool allslots = false;   // re-evaluate every live slot after every step (C06/C07/C13)
+    bool undercount = false; // no node may be under-counted (after rejected calls, C16)
     int auditEvery = 1;
     bool fingerprint = false; // record a handle-free canonical form of every produced edge (C12)
 };
